@@ -417,6 +417,43 @@ def lex_safe(F, rep, T):
     arms = [a for a in T.stmt if a["label"] == "Unreachable"]
     rep.ob("LEX-SAFE", "HaltAndCatchFire|message", bool(s) and s["text_many"] == '__CRASH("{raw:0}")()',
            "the unreachable message is written inside double quotes (`%s`); it is built from a fixed text and a line number" % (s["text_many"] if s else None))
+    # .. which is decided where the message is made: every IR::HaltAndCatchFire the lowering builds carries a text put together
+    # from literal pieces without quote, backslash or line break and from *numbers* - a file name, an identifier or any other
+    # free text in it can close the Lua string (`5" disk/main.sy`, `src\\main.sy`)
+    from hir import find_formats, binding_inits
+    n_msg = 0
+    for fn in F.fns_in("sylt_compiler::intermediate::"):
+        inits = None
+        for c in nodes(fn_body(fn), "Call"):
+            if not (callee(c) or "").endswith("IR::HaltAndCatchFire") or not c.get("args"):
+                continue
+            n_msg += 1
+            a = peel(c["args"][0])
+            if a.get("k") == "Path" and a.get("res") == "Local":
+                inits = inits or binding_inits(fn_body(fn))
+                a = peel(inits.get(a["hid"]) or a)
+            fmts = list(find_formats(a))
+            bad = None
+            if a.get("k") == "Lit":
+                if set(str(a.get("v"))) & {'"', "\\", "\n", "\r"}:
+                    bad = "the literal %r" % a.get("v")
+            elif len(fmts) != 1:
+                bad = "a text whose making cannot be followed (`%s`)" % pp(a)[:60]
+            else:
+                for part in fmts[0][1]:
+                    if isinstance(part, str):
+                        if set(part) & {'"', "\\", "\n", "\r"}:
+                            bad = "the literal piece %r" % part
+                    else:
+                        ty = ((part.get("e") or {}).get("ty") or "").lstrip("&").strip()
+                        if ty not in ("usize", "u8", "u16", "u32", "u64", "i8", "i16", "i32", "i64", "isize", "bool"):
+                            bad = "`%s` of type %s (free text)" % (pp(part.get("e") or {})[:40], ty or "?")
+            rep.ob("LEX-SAFE", "HaltAndCatchFire|message-made-of-fixed-text-and-numbers#%d" % n_msg, bad is None,
+                   "the crash message is fixed text and numbers" if bad is None else
+                   "the message of a crash instruction built in %s contains %s: it is written between double quotes without "
+                   "escaping, so a quote, backslash or line break in it makes the emitted Lua unloadable (or a different string)" % (
+                       last(fn["_path"], 2), bad), line_of(c))
+    rep.floor("LEX-SAFE", "crash messages built by the lowering", n_msg, 1)
     # (d) numbers
     s = T.S.get("Int")
     it = tk.rules.get("Int")
